@@ -173,16 +173,30 @@ def run(chk):
     # ---- C07.atomic (T3) ---------------------------------------------------------------------------
     none_returns_ok = _get_none_summary(chk, repo, get)
 
+    # `(conn := await self._get(...)) is not None` - or, hoisted, `conn = await self._get(...)` followed by `if conn is not None:` - : the None
+    # branch of _get() never suspended (summary above), the other branch leaves the region with the connection
+    got_names = {n.ast.targets[0].id for n in g.nodes if n.kind == "stmt" and isinstance(n.ast, ast.Assign) and isinstance(n.ast.targets[0], ast.Name) and K.node_has(n, "await self._get($K, $T)")}
+
+    def _is_get_test(n):
+        if n.kind != "test":
+            return False
+        if K.node_has(n, "await self._get($K, $T)"):
+            return True
+        t = norm.raw(n.ast)
+        return any(t == f"{x} is not None" for x in got_names)
+
     def edge_filter(n, kind):
-        # `(conn := await self._get(...)) is not None`: the None branch of _get() never suspended
-        if n.kind == "test" and K.node_has(n, "await self._get($K, $T)"):
-            cl = norm.cnf(n.ast, True, n.ast)
+        if _is_get_test(n):
             # true branch = conn is not None -> leaves the region (returns conn)
             return kind == "F"
         return True
 
     def summarised(n):
-        return none_returns_ok and n.kind == "test" and K.node_has(n, "await self._get($K, $T)") and M.contains(n.ast, "$X is not None")
+        if not none_returns_ok:
+            return False
+        if n.kind == "test" and K.node_has(n, "await self._get($K, $T)") and M.contains(n.ast, "$X is not None"):
+            return True
+        return n.kind == "stmt" and isinstance(n.ast, ast.Assign) and isinstance(n.ast.targets[0], ast.Name) and n.ast.targets[0].id in got_names and K.node_has(n, "await self._get($K, $T)")
 
     if ph_nodes:
         # the edge on which "capacity is available" has just been established: the outcome of a test that is *only* the capacity comparison
